@@ -13,7 +13,7 @@ from ..ref import sqf_interp as I
 PROPERTY = "C12"
 LEVEL = "model_checking"
 VARIANTS = ["fast"]
-RULE = ("fairness: all sets of 2-3 (quick) / 2-5 (thorough) scripts over 7 script shapes x slice lengths {1,2,3,5,7,150} x 2 clock ticks; states = scheduler turns "
+RULE = ("fairness: all sets of 2-4 (quick) / 2-5 (thorough) scripts over 7 script shapes x slice lengths {1,2,3,5,7,150} x 2 clock ticks; states = scheduler turns "
         "observed (slice_begin events), transitions = instructions; sleep: durations x competitors x slices; scriptDone/terminate: child "
         "lengths x delay before terminate x slices; a case = (script set, slice, tick); non-trivial = >=2 scripts alive at the same time")
 ASSUMPTIONS = [
@@ -300,7 +300,7 @@ def check_waituntil(ws, case):
 def spaces(tier):
     q = tier == "quick"
     sl = [1, 2, 3, 7, 150] if q else SLICES
-    return [Space("fairness", gen_fair([2, 3] if q else [2, 3, 4, 5], sl, [100] if q else [100, 2000]), check_fair, variant="fast", describe="script sets x slice lengths: turn trace invariants + per-script results"),
+    return [Space("fairness", gen_fair([2, 3, 4] if q else [2, 3, 4, 5], sl, [100] if q else [100, 2000]), check_fair, variant="fast", describe="script sets x slice lengths: turn trace invariants + per-script results"),
             Space("sleep", lambda: gen_sleep(sl), check_sleep, variant="fast", describe="sleep durations x competitors x slices x ticks"),
             Space("scriptdone-terminate", lambda: gen_term(sl), check_term, variant="fast", describe="child length x delay before terminate x slices"),
             Space("waituntil", lambda: gen_waituntil(sl), check_waituntil, variant="fast", describe="waitUntil whose condition turns true at its n-th evaluation / when another script sets a flag, with and without a competitor, all slices"),
